@@ -18,7 +18,8 @@ RULE = ("(i) the finite header space is enumerated: delimited streams with an em
         "exactly 10 (and 9, 11, 127, 128, 300), and pyjelly serializer output in both modes with the stream name padded so "
         "that the options row length sweeps 8..140 (each also parsed from a BytesIO positioned after a foreign prefix that would "
         "classify the other way), and with a literal sized so that the frame length sweeps 118..136 and "
-        "16370..16530 (1/2/3-byte length varints); the crafted streams and every fourth pyjelly pair are also supplied through "
+        "16370..16530 (1/2/3-byte length varints); every constructible first-frame length 12..200 through generic and rdflib "
+        "parse_jelly_flat and the rdflib plugin (Graph.parse(data=) / Graph.parse(file name)); the crafted streams and every fourth pyjelly pair are also supplied through "
         "24 awkward file objects (raw / buffered, seekable and not, whose first read or look-ahead shows 1-2 bytes; a buffered "
         "reader with 1-2 bytes left in its buffer; gzip over a dribbling file) - both modes must be detected by get_options_and_frames and parse to "
         "the same statements. Non-trivial: headers containing 0x0A in byte 1 or 2; distinct by header bytes / stream bytes.")
@@ -117,6 +118,57 @@ def real_stream_cases(rng):
         o = minimal_stream(None, target, rng)
         if o is not None:
             yield f"first-frame-length-{target}", o, [("options", o)], triple_rows
+
+
+def first_frame_length_sweep(ctx):
+    """Every constructible first-frame length 16..200 (= every value of the stream's first byte a small real stream can
+    have), both framings, through every way of handing the bytes to a parser: generic and rdflib parse_jelly_flat, and
+    the rdflib plugin (Graph.parse(data=...), Graph.parse(<file name>), format='jelly')."""
+    import os
+    import tempfile
+
+    import rdflib
+    triple_rows = [("name", {"id": 0, "value": "urn:a"}),
+                   ("triple", {"s": ("iri", 0, 0), "p": ("iri", 0, 1), "o": ("bnode", "b")})]
+    want = [("stmt", (("iri", "urn:a"), ("iri", "urn:a"), ("bnode", "b")))]
+    fd, path = tempfile.mkstemp(prefix="rv-c08-", suffix=".jelly")
+    os.close(fd)
+    try:
+        for L in range(12, 201):
+            o = minimal_stream(None, L, None)
+            if o is None:
+                continue
+            first = [("options", o)]
+            for mode, data in (("delimited", wire.enc_stream([{"rows": first}, {"rows": triple_rows}], True)),
+                               ("non-delimited", wire.enc_stream([{"rows": first + triple_rows}], False))):
+                if mode == "delimited" and data[0] != L:
+                    continue
+                outcomes = {}
+                for reader in ("generic:flat", "rdflib:flat", "rdflib:Graph.parse(data)", "rdflib:Graph.parse(file)"):
+                    try:
+                        if reader.endswith(":flat"):
+                            got = T.norm_events(pj.parse(reader.split(":")[0], "flat", data))
+                        else:
+                            g = rdflib.Graph(bind_namespaces="none")
+                            if reader.endswith("(data)"):
+                                g.parse(data=data, format="jelly")
+                            else:
+                                with open(path, "wb") as f:
+                                    f.write(data)
+                                g.parse(path, format="jelly")
+                            got = T.norm_events([("stmt", st) for st in T.rdflib_store_statements(g)])
+                        outcomes[reader] = "ok" if got == T.norm_events(want) else f"parsed to {got}"
+                    except Exception as ex:  # noqa: BLE001
+                        outcomes[reader] = f"raised {type(ex).__name__}: {str(ex)[:80]}"
+                ctx.observe("first-frame-length-sweep-parses", len(outcomes))
+                bad = {r: v for r, v in outcomes.items() if v != "ok"}
+                if bad:
+                    ctx.violation({"clause": "misclassified-or-rejected", "mode": mode, "header": data[:3].hex(), "first_frame_length": L,
+                                   "bytes": data.hex(), "kind": "length-sweep",
+                                   "summary": f"{mode} stream whose first frame is {L} bytes long (header {data[:3].hex()}): {bad}"})
+                ctx.case(("sweep", L, mode), True, sample={"kind": "first-frame-length-sweep", "length": L, "mode": mode})
+    finally:
+        os.unlink(path)
 
 
 def parse_at_offset(data: bytes, want_delim: bool):
@@ -348,6 +400,8 @@ def run_shard(ctx):
             if w:
                 ctx.violation(w)
             ctx.case(("crafted", desc), True, sample={"kind": "crafted", "desc": desc})
+    if ctx.shard == 2 % ctx.nshards:
+        first_frame_length_sweep(ctx)
     i = 0
     while not ctx.out_of_time() and i < (6 if ctx.tier == "quick" else 60):
         pyjelly_pairs(ctx, ctx.rng("pair", i))
@@ -385,6 +439,19 @@ def replay(w: dict):
             if bad:
                 return {"clause": "misclassified-through-source", "summary": f"{bad[0]}: {bad[2]}"}
         return None if res[0] == res[1] else {"clause": "paired-parse-differs", "summary": "differs"}
+    if w.get("kind") == "length-sweep":
+        class _C:
+            def __init__(self):
+                self.v = []
+            def violation(self, x):
+                self.v.append(x)
+            def observe(self, *a, **k):
+                pass
+            def case(self, *a, **k):
+                pass
+        c = _C()
+        first_frame_length_sweep(c)
+        return next((x for x in c.v if x["first_frame_length"] == w["first_frame_length"] and x["mode"] == w["mode"]), None)
     return {"clause": w.get("clause"), "summary": "re-run ./check C08 to reproduce crafted-stream witnesses"}
 
 
